@@ -44,6 +44,9 @@ namespace OP2Utility
 		void VerifyValidBitCount() const;
 		static void VerifyValidBitCount(uint16_t bitCount);
 
+		// Width may not be negative. Height may be negative (top down), but its absolute value must be representable
+		static void VerifyValidDimensions(int32_t width, int32_t height);
+
 		std::size_t CalculatePitch() const;
 		static std::size_t CalculatePitch(uint16_t bitCount, int32_t width);
 
